@@ -256,8 +256,25 @@ def spec_val(j):
     return {'t': 'd', 'v': [[{'t': 's', 'v': [byte2sym(b) for b in bytes.fromhex(k)]}, spec_val(v)] for k, v in j['d']]}
 
 
+def repo_test_inputs():
+    """byte-string literals used by the repository's own tests (tests/*.rs): their decoder runs are validated too"""
+    import glob
+    import re
+    out = []
+    for path in sorted(glob.glob('/repo/tests/*.rs')):
+        for m in re.finditer(r'b"((?:[^"\\\\]|\\\\.)*)"', open(path).read()):
+            lit = m.group(1)
+            try:
+                raw = bytes(lit, 'latin1').decode('unicode_escape').encode('latin1')
+            except Exception:
+                continue
+            if 0 < len(raw) <= 120:
+                out.append(raw)
+    return sorted(set(out))
+
+
 def trace_validate(pid, V, rng, n):
-    docs = sample_docs(rng, n)
+    docs = sample_docs(rng, n) + repo_test_inputs()
     obs = run_mbt([{'op': 'bdecode', 'input': d.hex()} for d in docs])
     d = outdir(pid)
     tpath = os.path.join(d, 'bencode_trace.ndjson')
